@@ -58,6 +58,12 @@ func newState(name string, out io.Writer, ctx map[string]Value, env *Env) *state
 // A selfValue represents the special `_self` variable.
 type selfValue map[string]Value
 
+// String returns the name of the template: "import _self as m" and
+// "from _self import f" load the running template.
+func (s selfValue) String() string {
+	return CoerceString(s["templateName"])
+}
+
 func (s *state) self() selfValue {
 	return selfValue{
 		"templateName": s.name,
